@@ -714,13 +714,23 @@ class FakeSubprocessModule:
         self.stall_on_call = None
         self.stalls_fired = 0
 
+    @staticmethod
+    def _text_mode(kw):
+        return bool(kw.get("text") or kw.get("universal_newlines") or kw.get("encoding") or kw.get("errors"))
+
+    @staticmethod
+    def _to_text(data):
+        if data is None:
+            return ""
+        return data if isinstance(data, str) else data.decode("ascii")
+
     def run(self, args, input=None, stdout=None, **kw):
         self.argv_log.append(list(args))
         if self.recorder is not None:
             self.recorder.append(("subprocess", list(args)))
-        text = input.decode("ascii") if input is not None else ""
-        reply = self.peer.respond(text, "subprocess:" + str(args[0]))
-        return FakeCompleted(reply.encode("utf-8"))
+        reply = self.peer.respond(self._to_text(input), "subprocess:" + str(args[0]))
+        # bytes in / bytes out, or text in / text out when the caller asked for text mode
+        return FakeCompleted(reply if self._text_mode(kw) else reply.encode("utf-8"))
 
     def Popen(self, args, **kw):
         mod = self
@@ -738,8 +748,22 @@ class FakeSubprocessModule:
                     mod.peer.result.hit("fault:solver_stalled_until_timeout")
                     mod.stalls_fired += 1
                     raise mod.TimeoutExpired()
-                reply = mod.peer.respond(data.decode("ascii") if data else "", "subprocess:" + str(args[0]))
+                reply = mod.peer.respond(mod._to_text(data), "subprocess:" + str(args[0]))
+                if mod._text_mode(kw):
+                    return reply, ""
                 return reply.encode("utf-8"), b""
+
+            def __enter__(self_inner):
+                return self_inner
+
+            def __exit__(self_inner, *exc):
+                return False
+
+            def kill(self_inner):
+                pass
+
+            def wait(self_inner, timeout=None):
+                return 0
 
         return P()
 
